@@ -12,7 +12,7 @@ use std::sync::atomic::{AtomicBool, AtomicUsize, Ordering};
 use std::sync::{Condvar, Mutex};
 use std::time::{Duration, Instant};
 
-pub const LIMIT: Duration = Duration::from_millis(2000);
+pub const LIMIT: Duration = Duration::from_millis(10000);
 
 /// 0 = none, 1 = event report, 2 = patch check, 3 = download
 pub static HANG_STAGE: AtomicUsize = AtomicUsize::new(0);
@@ -29,7 +29,7 @@ pub fn maybe_hang(stage: usize) {
         return; // only the first callback of that stage hangs
     }
     let mut rel = RELEASE.lock().unwrap();
-    let deadline = Instant::now() + Duration::from_secs(30);
+    let deadline = Instant::now() + Duration::from_secs(120);
     while !*rel && Instant::now() < deadline {
         let (g, _) = RELEASE_CV.wait_timeout(rel, Duration::from_millis(100)).unwrap();
         rel = g;
@@ -37,6 +37,7 @@ pub fn maybe_hang(stage: usize) {
 }
 
 fn timed<F: FnOnce() -> String + Send + 'static>(f: F) -> (Option<String>, u128) {
+    crate::tick();
     let t0 = Instant::now();
     let (tx, rx) = std::sync::mpsc::channel();
     std::thread::spawn(move || {
